@@ -5,7 +5,7 @@
 From BV Require Import Base.Prelude Model.Block Model.ForkDB Model.Forkable Model.ForkableLookups
   Model.Burst Model.Hub Model.CursorResolver Model.Joining
   Spec.Consumer Spec.Universe Check.Burst_Check Check.C07_Check Spec.C06_Spec Spec.C07_Spec Spec.C09_Spec Spec.C13_Spec
-  Spec.C07_Compose_Spec Spec.C07_Shapes_Spec Spec.C07_More_Spec Spec.C07_Final_Spec Spec.C07_FinalUnfixed_Spec Spec.C07_Fuel_Spec
+  Spec.C07_Compose_Spec Spec.C07_Shapes_Spec Spec.C07_More_Spec Spec.C07_Final_Spec Spec.C07_FinalUnfixed_Spec Spec.C07_TargetUnfixed_Spec Spec.C07_Fuel_Spec
   Proofs.C07_ComposeRun Proofs.C07_ComposeCheck Proofs.C07_FullRefuted Proofs.C07_Shapes Proofs.C07_FiltersNum Proofs.C07_FiltersCursor Proofs.C07_FiltersTarget Proofs.C07_Final Proofs.C07_FinalMem Proofs.C07_FinalCursor Proofs.C07_FinalTarget Proofs.C07_TargetRefuted Proofs.C07_FinalRefuted Proofs.C07_Fuel
   Properties.C07_Compose.
 Local Open Scope N_scope.
@@ -34,22 +34,20 @@ Theorem c07_seamless_cursor_nu : C07_seamless_cursor_nu.
 Proof. exact c07_seamless_cursor_nu_proof. Qed.
 Print Assumptions c07_seamless_cursor_nu.
 
-(* target-cursor mode, filters with New and Undo, ANY stop block; partial: the two agreement hypotheses of
-   c07_seamless_target_partial remain (files_on_hub, target_on_chain) *)
+(* target-cursor mode, filters with New and Undo, ANY stop block; partial: target_on_chain remains (a stored cursor block
+   is on the hub's chain).  files_on_hub is no longer needed: since the fix "target join on identity" a target cursor
+   below the file block joins on the block's identity, and a cursor at or above it joins "through the cursor", where the
+   hub's block of that height is the ancestor of the canonical cursor block *)
 Theorem c07_seamless_target_nu_partial : C07_seamless_target_nu.
 Proof. exact c07_seamless_target_nu_proof. Qed.
 Print Assumptions c07_seamless_target_nu_partial.
 
-(* files_on_hub is needed there: target-cursor mode joins the hub by block NUMBER; with every other hypothesis (and
-   target_on_chain) the hub on a fork at the join height breaks the discipline - reproduced on the real code *)
+(* BEFORE that fix (stream_run_tnum, Spec/C07_TargetUnfixed_Spec.v) target-cursor mode joined the hub by block NUMBER when
+   the cursor was below the file block: with every hypothesis of c07_seamless_target_nu_partial the hub on a fork at the
+   join height broke the discipline - found by this proof, reproduced on the real code, repaired *)
 Theorem c07_target_join_by_number_refuted : C07_target_join_by_number_refuted.
 Proof. exact c07_target_join_by_number_refuted_proof. Qed.
 Print Assumptions c07_target_join_by_number_refuted.
-
-(* ... with files_on_hub discharged from files_final (merged blocks at or below the ready hub's LIB) *)
-Theorem c07_seamless_target_nu_final_partial : C07_seamless_target_nu_final.
-Proof. exact c07_seamless_target_nu_final_proof. Qed.
-Print Assumptions c07_seamless_target_nu_final_partial.
 
 (* number mode, final blocks only (the stateful filter of the fix "each final block once"), any stop block: each
    delivered block extends the previous one; complete on the final chain.  No files_final hypothesis. *)
@@ -244,7 +242,7 @@ Definition mx_c4 : jcfg := mkJ 2 0 10 2 5 (Some cx_cu4) 17 2 3.
 
 Example c07_more_nonvacuous_target :
   hub_of_universe cx_U mx_c4 cx_w /\ eventual_tip mx_c4 cx_w cx_canon /\
-  files_on_hub mx_c4 cx_w cx_merged /\ target_on_chain mx_c4 cx_w cx_cu4 /\
+  target_on_chain mx_c4 cx_w cx_cu4 /\
   j_mode mx_c4 = 2 /\ j_cursor mx_c4 = Some cx_cu4 /\ has_nu (j_filter mx_c4) (j_custom mx_c4) = true /\ 0 < j_bundle mx_c4 /\
   In (cx_b 14) cx_canon /\ bref (cx_b 14) = cu_blk cx_cu4 /\
   (exists b, In b cx_canon /\ bnum b = run_start mx_c4 cx_w) /\
@@ -255,7 +253,6 @@ Proof.
   destruct c07_compose_nonvacuous_hyps as (_ & _ & Hhub & _ & _ & _ & _ & _).
   split; [exact Hhub|].
   split; [apply eventual_tip_b_sound; vm_compute; reflexivity|].
-  split; [apply files_on_hub_b_sound; vm_compute; reflexivity|].
   split; [apply target_on_chain_b_sound; vm_compute; reflexivity|].
   split; [reflexivity|]. split; [reflexivity|]. split; [reflexivity|]. split; [reflexivity|].
   split; [vm_compute; tauto|]. split; [reflexivity|].
